@@ -130,6 +130,30 @@ def check_nested(ti: int, p0: int, p1: int, p2: int, p3: int, p4: int, p5: int, 
     return got is None or got is CLS[t]
 
 
+ARG0_FUNCS = [("concat", 2), ("substring", 2), ("substring", 3)]
+
+
+def _arg0_call(fi: int, t: str, picks: list, sval: str) -> Any:
+    name, n = ARG0_FUNCS[fi]
+    first = gen_typed(t, 2, picks, sval)
+    if name == "concat":
+        return ast.Call(ast.Identifier("concat"), [first, gen_typed(t, 1, picks, sval)])
+    return ast.Call(ast.Identifier("substring"), [first] + [ast.Integer("1")] * (n - 1))
+
+
+def check_nested_pair(fi: int, p0: int, p1: int, p2: int, q0: int, q1: int, q2: int, sval: str) -> bool:
+    """inference has no memory: the same argument-derived function applied first to a String-typed and then to a
+    List-typed argument expression (inner producers symbolic), and to the first one again, gives unknown or the own type
+    each time - also on the other order."""
+    e1 = _arg0_call(fi, S, [p0, p1, p2], sval)
+    e2 = _arg0_call(fi, L, [q0, q1, q2], sval)
+    for e, t in ((e1, S), (e2, L), (e1, S)):
+        got = infer_type(e)
+        if not (got is None or got is CLS[t]):
+            return False
+    return True
+
+
 EXPECTED_SETS = [(S,), (S, L), (I, F), (B,), (D, DT), (DT, T), (L,), (G,), (DU,)]
 
 
@@ -201,6 +225,13 @@ def main() -> int:
                               "0 <= p1 < 10 and 0 <= p2 < 10 and 0 <= p3 < 6 and len(sval) <= 1",
                               f"check_nested({ti}, {first}, p1, p2, p3, 0, 1, sval)",
                               describe={"type": t, "outer": producers(t)[first]}, family="typed-nesting"))
+    for fi in range(len(ARG0_FUNCS)):
+        for p0 in range(len(producers(S))):
+            items.append(Item(f"pair_{fi}_{p0}", "p1: int, p2: int, q0: int, q1: int, q2: int, sval: str",
+                              "0 <= p1 < 4 and 0 <= p2 < 2 and 0 <= q0 < 5 and 0 <= q1 < 3 and 0 <= q2 < 2 and len(sval) <= 1",
+                              f"check_nested_pair({fi}, {p0}, p1, p2, q0, q1, q2, sval)",
+                              describe={"function": list(ARG0_FUNCS[fi]), "first argument producer (String)": str(producers(S)[p0])},
+                              family="inference-sequence"))
     for ti, t in enumerate(TYPES):
         for ei in range(len(EXPECTED_SETS)):
             if quick and (ti + ei) % 2:
@@ -216,7 +247,7 @@ def main() -> int:
                           family="typecheck"))
     for it in items[:4]:
         run.sample({"harness": it.name, "call": it.call, "describe": it.describe})
-    header = "from verif.props.c18 import check_name, check_nested, check_typecheck, check_substr_family\n"
+    header = "from verif.props.c18 import check_name, check_nested, check_typecheck, check_substr_family, check_nested_pair\n"
     run_items(run, header, items, per_condition_timeout=60 if quick else 200,
               progress=bool(os.environ.get("VERIF_PROGRESS")))
     return run.finish()
